@@ -52,7 +52,7 @@ def decOpts (s : String) : Option Opts :=
   | _ => none
 
 def decFlags (s : String) : Option (Frames.Variant × Wrap.WVariant × Flags) :=
-  match s.splitOn "," with
+  match (s.splitOn ",").take 3 with
   | [a, b, c] => do
     let n := decNat a
     let v : Frames.Variant := { zeroWidthChild := n % 2 == 1, ruleRightRepeat := n / 2 % 2 == 1,
@@ -67,6 +67,13 @@ def decFlags (s : String) : Option (Frames.Variant × Wrap.WVariant × Flags) :=
                    fixedRawMaximum := bit 2 d.fixedRawMaximum, noColumnsAsserts := bit 3 d.noColumnsAsserts,
                    flexNegative := bit 4 d.flexNegative, staleTableWidth := bit 5 d.staleTableWidth })
   | _ => none
+
+/-- fourth component of the flags: `1` (or absent) = a `ratio=0` column of an expanding table behaves as in the as-found code
+(what C07's `calcWidths` models); `0` = the code is repaired and such tables are outside the model -/
+def decRatioZero (s : String) : Bool :=
+  match s.splitOn "," with
+  | [_, _, _, d] => d != "0"
+  | _ => true
 
 def takeNats : Nat → List String → Option (List Nat × List String)
   | 0, ts => some ([], ts)
@@ -86,6 +93,9 @@ partial def parseR : List String → Option (R × List String)
   | "T" :: t :: ts => do
     let t ← C02.decText? t
     pure (.text t, ts)
+  | "S" :: t :: ts => do
+    let t ← C02.decText? t
+    pure (.str t, ts)
   | "PAD" :: a :: b :: c :: d :: ex :: ts => do
     let (e, ts) ← parseR ts
     pure (.padding ⟨decNat a, decNat b, decNat c, decNat d⟩ (decBool ex) e, ts)
@@ -197,36 +207,40 @@ def titleOk (t : List Char) : Bool := (t.map (fun c => if c == '\n' then ' ' els
 def optTextOk (t : Option T) : Bool := match t with | none => true | some t => invB t
 
 mutual
-partial def staticOk (env : Env) : R → Bool
+partial def staticOk (rz : Bool) (env : Env) : R → Bool
   | .text t => invB t
-  | .padding _ _ c => staticOk env c
+  | .str t => invB t
+  | .padding _ _ c => staticOk rz env c
   | .panel o c =>
     (match unpackPad o.padding with | .ok _ => true | .error _ => false) && titleOk o.title && decide (0 ≤ o.width.getD 0)
-      && (boxAt (substituteBox env (o.safeBox.getD env.safeBox) o.box)).isSome && staticOk env c
-  | .align o c => decide (0 ≤ o.width.getD 0) && staticOk env c
-  | .constrain _ c => staticOk env c
-  | .styled c => staticOk env c
-  | .cast c => (match c with | .cast _ => false | _ => true) && staticOk env c
-  | .opaque c => staticOk env c
-  | .group _ items => items.all (staticOk env)
+      && (boxAt (substituteBox env (o.safeBox.getD env.safeBox) o.box)).isSome && staticOk rz env c
+  | .align o c => decide (0 ≤ o.width.getD 0) && staticOk rz env c
+  | .constrain _ c => staticOk rz env c
+  | .styled c => staticOk rz env c
+  | .cast c => (match c with | .cast _ => false | _ => true) && staticOk rz env c
+  | .opaque c => staticOk rz env c
+  | .group _ items => items.all (staticOk rz env)
   | .rule o => decide (1 ≤ cellLen cw o.characters) && titleOk o.title && !(o.title.contains '\t')
   | .bar o => decide (0 < o.size.den) && decide (0 < o.beginV.den) && decide (0 < o.endV.den) && !o.size.isZero
       && decide (0 ≤ o.width.getD 0)
   | .progressBar o => decide (0 < o.total.den) && decide (0 < o.completed.den) && decide (0 < o.time.den) && decide (0 ≤ o.width.getD 0)
   | .table o cols =>
-    (match o.box with | some i => (boxOf i).isSome && (boxOf (substituteBox env (o.safeBox.getD env.safeBox) i)).isSome | none => true)
+    (rz || !((o.expand || o.width.isSome)
+              && cols.any (fun c => match c with | .mk co _ _ _ => co.ratio == some 0)
+              && cols.any (fun c => match c with | .mk co _ _ _ => decide (1 ≤ co.ratio.getD 0))))
+      && (match o.box with | some i => (boxOf i).isSome && (boxOf (substituteBox env (o.safeBox.getD env.safeBox) i)).isSome | none => true)
       && optTextOk o.title && optTextOk o.caption
       && (match cols with
           | [] => o.rowEndSection.isEmpty
           | (.mk _ _ _ cells) :: _ => cols.all (fun c => match c with | .mk _ _ _ cs => cs.length == cells.length)
                                         && o.rowEndSection.length == cells.length)
-      && cols.all (fun c => match c with | .mk _ h f cs => staticOk env h && staticOk env f && cs.all (staticOk env))
+      && cols.all (fun c => match c with | .mk _ h f cs => staticOk rz env h && staticOk rz env f && cs.all (staticOk rz env))
   | .columns o items =>
     decide (0 ≤ o.lay.width.getD 0) && optTextOk o.title
-      && (match unpackPad o.lay.padding with | .ok _ => true | .error _ => false) && items.all (staticOk env)
-  | .tree root => nodeOk env root
-partial def nodeOk (env : Env) : TNode → Bool
-  | .mk label _ _ ch => staticOk env label && ch.all (nodeOk env)
+      && (match unpackPad o.lay.padding with | .ok _ => true | .error _ => false) && items.all (staticOk rz env)
+  | .tree root => nodeOk rz env root
+partial def nodeOk (rz : Bool) (env : Env) : TNode → Bool
+  | .mk label _ _ ch => staticOk rz env label && ch.all (nodeOk rz env)
 end
 
 def poisonA : List Seg := []
@@ -246,7 +260,7 @@ def handlers : List (String × (List String → String)) := [
       let env := decEnv env
       let o ← decOpts opts
       let r ← parseTree tree
-      if !staticOk env r then none else
+      if !staticOk (decRatioZero flags) env r then none else
       let w := decInt width
       let a := consoleRender (mkCfg f env poisonA) r o w
       let b := consoleRender (mkCfg f env poisonB) r o w
@@ -257,7 +271,7 @@ def handlers : List (String × (List String → String)) := [
       let f ← decFlags flags
       let env := decEnv env
       let r ← parseTree tree
-      if !staticOk env r then none else
+      if !staticOk (decRatioZero flags) env r then none else
       let w := decInt width
       let a := measureGet (mkCfg f env poisonA) r w
       let b := measureGet (mkCfg f env poisonB) r w
